@@ -108,7 +108,13 @@ fn limit_of(msg: &serde_json::Value) -> Option<(String, SInt)> {
 fn engine_limit(side: Side, second: u8) -> impl Fn() {
     move || {
         let p = P::new("C17", side.clone(), 0);
-        let mut r = p.run();
+        let mut cfg = p.cfg();
+        if second == 4 {
+            // a partial-close fraction of 100%: ClosePosition closes the whole position even when
+            // doing so leaves the price band
+            cfg.partial_ratio = Uint128::new(cfg.d());
+        }
+        let mut r = p.run_cfg(cfg);
         let d = r.w.d;
         symrt::set_full(false);
         let lim = amount("lim", d, true, 0);
@@ -158,9 +164,32 @@ fn engine_limit(side: Side, second: u8) -> impl Fn() {
                 let reducing = t.tx.msgs_to("vamm").first().map(|m| m.get("swap_input").is_some()).unwrap_or(false);
                 check(&t, "reduce", reducing);
             }
+            4 => {
+                // a tight band set in the block before: the whole close leaves it
+                let f = crate::sx::var("fluct", 1, d, d / 1000);
+                assert!(r.w.update_vamm(0, None, None, None, None, Some(f), None).ok);
+                r.w.next_block(15);
+                let q = r.w.output_amount(0, if side == Side::Buy { Direction::AddToAmm } else { Direction::RemoveFromAmm }, t.post.pos[&(0, ALICE)].as_ref().unwrap().size.value).ok();
+                let x0 = r.w.vamm_state(0).quote_asset_reserve;
+                let t = r.step(Op::Close { who: ALICE, limit: lim });
+                let whole = t.tx.ok && t.post.pos[&(0, ALICE)].is_none();
+                check(&t, "close-whole-over-the-band", true);
+                if let (true, Some(q)) = (whole, q) {
+                    // the executed amount is the quoted one and satisfies the caller's limit
+                    let x1 = r.w.vamm_state(0).quote_asset_reserve;
+                    prove_d("C17/whole-close-exchanges-the-quoted-amount", s(x0).sub(s(x1)).abs().eq(s(q)), "close-whole-over-the-band".into());
+                    let okc = if side == Side::Buy { s(q).ge(s(lim)) } else { s(q).le(s(lim)) };
+                    prove_d("C17/engine-whole-close-satisfies-limit", s(lim).eq(c(0)).or(okc), "close-whole-over-the-band".into());
+                }
+            }
             _ => {
+                let q = r.w.output_amount(0, if side == Side::Buy { Direction::AddToAmm } else { Direction::RemoveFromAmm }, t.post.pos[&(0, ALICE)].as_ref().unwrap().size.value).ok();
                 let t = r.step(Op::Close { who: ALICE, limit: lim });
                 check(&t, "close-whole", true);
+                if let (true, Some(q)) = (t.tx.ok, q) {
+                    let okc = if side == Side::Buy { s(q).ge(s(lim)) } else { s(q).le(s(lim)) };
+                    prove_d("C17/engine-whole-close-satisfies-limit", s(lim).eq(c(0)).or(okc), "close-whole".into());
+                }
             }
         }
     }
@@ -178,7 +207,7 @@ pub fn scenarios(_seed: u64) -> Vec<Scenario> {
     }
     let d2 = "engine: OpenPosition (fresh / increase / reduce) and whole ClosePosition with a symbolic limit; the limit inside the delivered vAMM sub-message equals the caller's";
     for (side, sn) in [(Side::Buy, "long"), (Side::Sell, "short")] {
-        for (k, kn) in [(0u8, "fresh"), (1, "increase"), (2, "reduce"), (3, "close")] {
+        for (k, kn) in [(0u8, "fresh"), (1, "increase"), (2, "reduce"), (3, "close"), (4, "close.over-band.ratio1")] {
             v.push(sc("C17", Tier::Quick, &format!("c17.engine.{}.{}", kn, sn), d2, 400, 120, engine_limit(side.clone(), k)));
         }
     }
